@@ -28,6 +28,10 @@ CHECKS = {
   text="Coq development over (i) a regular-expression core with relational semantics and a Brzozowski-derivative matcher proved equivalent, (ii) decimal rendering/parsing with round-trip lemmas, (iii) a model of the community-matcher compiler that, like the Go code, analyses the printed pattern TEXT: for every well-formed pattern and every community, the Exact, fixed-AS wildcard, fixed-AS bitmap and regexp modes decide exactly what an unanchored regexp search on 'AS:local' decides (print-inversion proofs: a plain-character prefix of a printed pattern consists of unquantified literal pieces); and the condition level (ANY/INVERT index fast path, general loop, ALL) equals the plain double loop over the regular expressions for every pattern list, community list and option. PARTIAL: the wildcard-AS finite-set mode enters the combined theorem as a named hypothesis, and ext-community matchers and the Append/Remove/Replace edits are decided by the direct oracle only. Tie: real CommunitySet/ExtCommunitySet objects built through the config constructors and edits vs the model (4k pattern-list x community cases quick) and vs Go regexp.MatchString on the canonical text (direct oracle), which also validates the model's regexp semantics and printer against RE2.",
   note="Trusted: Coq kernel; model, extraction, harness; Go's parse of the printed pattern text is assumed to denote the model's AST (validated by comparing Go regexp results with the model's on every case); hasTopLevelAlternation is modelled as 'more than one top-level alternative' (Go's prefix factoring can only move a pattern between two correct modes). No axioms.",
   tech="Coq proof (regexp semantics, derivative matcher correctness, print inversion, index/loop refinement) + differential correspondence + regexp direct oracle", ref="DESIGN.md 5/C13"),
+ "C19": dict(
+  text="PARTIAL. Coq theorems over byte-level models (Go-faithful indexing/slicing that panics where Go would): ParseRTR never panics on any byte string; round trips of the fixed-layout RTR PDUs built by the constructors; BFD control header decode safety and round trip of every valid header; MRT and BMP stream splitters never panic, return only a prefix of the data given and always advance at least a header (scanner progress). Everything else the property names -- BMP and MRT message bodies, all ZAPI versions and flavours, headers, the real bufio.Scanner driven by the splitters -- is decided by search on this run: structure-aware mutation of constructor-built messages under recover + watchdog, byte-equal round trips of 139 constructor-built BMP/MRT messages, scanner tokens = records over chunked streams. Modelled parts are additionally compared line by line with the extracted model.",
+  note="Trusted: Coq kernel; model, extraction, harness. NOT proved: decoders of BMP/MRT bodies and ZAPI (search only); the RTR Error Report and IPv6 Prefix round trips (correspondence only); re-serialising a DECODED RTR PDU whose Len field is smaller than its layout panics in Go (make(Len) then fixed indexing) -- outside the property's 'messages the packages can construct', noted in DESIGN.md. No axioms.",
+  tech="Coq proof (byte-level codec models: decode safety, round trip, splitter progress) + differential correspondence + mutation search with panic/hang/round-trip oracles", ref="DESIGN.md 5/C19"),
 }
 
 NOT_APPLICABLE = {}
